@@ -19,9 +19,11 @@ var checks = map[string]func(*ctx){
 	"C01": runC01,
 	"C02": runC02,
 	"C03": runC03,
+	"C12": runC12,
 	"C13": runC13,
 	"C14": runC14,
 	"C15": runC15,
+	"C16": runC16,
 }
 
 func main() {
